@@ -5,9 +5,10 @@ sys.path.insert(0,'/verif/mutants'); import mutants
 jobs=[]
 for m in mutants.M:
     p=os.path.join('/repo',m['file']); s=open(p).read()
-    if s.count(m['find'])!=1:
-        print("STALE",m['id'],s.count(m['find'])); continue
-    for prop in m['props']: jobs.append((m['id'],prop,{p:s.replace(m['find'],m['replace'])}))
+    ms=mutants.apply(m,s)
+    if ms is None:
+        print("STALE",m['id']); continue
+    for prop in m['props']: jobs.append((m['id'],prop,{p:ms}))
 def run(j):
     id,prop,ov=j
     fd,path=tempfile.mkstemp(suffix='.json',dir='/dev/shm'); os.write(fd,json.dumps(ov).encode()); os.close(fd)
